@@ -140,6 +140,20 @@ CHECKS = {
         technique="TLA+ reader model (Tokenizer.tla, TokReader.tla) model-checked with TLC and replayed; implementation "
                   "event traces validated by TLC against an acceptor spec (TokStream.tla)",
         ref="DESIGN.md §5 C11"),
+    'C12': dict(
+        text="Documents come from the TLA+ document writer: every comment carries a unique marker word, every formula and "
+             "math environment writes marker words and records its exact source span, constructs declared as discarded "
+             "contain marker words; markers sit at every position the writer reaches (arguments, between a call and its "
+             "argument, environments, after bare macros, last token without newline). Filters.tla is the Tier-A acceptor "
+             "(comment markers appear iff keep_comments; 'remove' hides every formula marker; 'verbatim' shows every "
+             "formula's exact source; 'with-delimiters' shows open..marker..close; discarded markers never appear). The "
+             "real latex_to_text output of every document under rotating option sets is validated by TLC.",
+        note="Bounded: derivations of <=4/5 opening actions over 5 construct sets of the default database; 4 of 48 option "
+             "sets per document (rotating, all sets covered). Comments are only written where the conversion renders the "
+             "surrounding text. One known finding (comment between a call and its mandatory argument is lost).",
+        technique="TLA+ document writer (DocWriter.tla) with markers, TLC; real outputs validated by TLC against an "
+                  "acceptor spec (Filters.tla)",
+        ref="DESIGN.md §5 C12"),
     'C13': dict(
         text="EncParse.tla composes the encoder model, instantiated with the real entries of the LaTeX-active ASCII "
              "characters of either built-in table, with the strict reference parser: TLC checks for every string over the "
